@@ -9,7 +9,7 @@ from typing import Dict, List, Optional, Tuple
 from ..cfg import CFG, EXIT
 from ..core import Ctx
 from ..model import AnalysisError, FuncInfo, dotted, kwarg, norm, walk_no_nested
-from .common import assigned_value, enclosing, expand_locals, flat_subscript, prog, resolve_local, stores_to, view_env
+from .common import assigned_value, enclosing, expand_locals, flat_subscript, prog, resolve_local, source_order, stores_to, view_env
 
 INF = float("inf")
 
@@ -206,7 +206,7 @@ def _problem(F: IlpFacts, c: ast.Call, branch: str) -> Problem:
             elts = list(init[0].elts)
             for a in walk_no_nested(f.node):
                 if isinstance(a, ast.Call) and isinstance(a.func, ast.Attribute) and a.func.attr in ("append",) and norm(a.func.value) == cons.id \
-                        and (a.lineno, a.col_offset) < (c.lineno, c.col_offset):
+                        and source_order(f.node).get(id(a), 0) < source_order(f.node).get(id(c), 0):
                     guards = [g for g in enclosing(f.node, a, (ast.If, ast.For, ast.While))]
                     if guards:
                         ok, why = False, f"constraint `{norm(a.args[0])}` is appended conditionally"
